@@ -68,12 +68,12 @@ impl Prop for C06 {
             return out; // stacked layout: C05 checks it
         }
         let w0 = g[0].len();
-        if g.iter().any(|l| l.len() != w0) || w0 > c.width {
-            if w0 > c.width {
-                push(&mut out, format!("sum of column widths plus separators is {} > {}", w0, c.width));
-            }
+        if w0 > c.width {
+            push(&mut out, format!("sum of column widths plus separators is {} > {}", w0, c.width));
             return out;
         }
+        let ragged = g.iter().any(|l| l.len() != w0);
+        let wmax = g.iter().map(|l| l.len()).max().unwrap_or(0);
         // bands between rules correspond to rows that rendered at least one cell
         let mut bands: Vec<(usize, usize)> = Vec::new();
         let mut start: Option<usize> = None;
@@ -103,6 +103,35 @@ impl Prop for C06 {
             }
         }
         global.sort();
+        // when every column boundary is visible somewhere, each token must lie between the boundaries of the table
+        // columns its cell spans — whatever bars its own row shows (a row that lost a cell shifts its later cells left;
+        // added after the seeded change C06-empty-td-dropped-at-build produced only a correspondence break)
+        if global.len() + 1 == t.cols {
+            for (bi, ((s, e), row)) in bands.iter().zip(&rows_with_text).enumerate() {
+                let mut col = 0usize;
+                for cell in row.iter() {
+                    let (c0, c1) = (col, col + cell.span);
+                    col = c1;
+                    if cell.token.is_empty() || c1 > t.cols {
+                        continue;
+                    }
+                    let lo = if c0 == 0 { 0 } else { global[c0 - 1] + 1 };
+                    let hi = if c1 == t.cols { wmax } else { global[c1 - 1] };
+                    let tok: Vec<char> = cell.token.chars().collect();
+                    for l in &g[*s..*e] {
+                        for x in find_all(l, &tok) {
+                            if x < lo || x + tok.len() > hi {
+                                push(&mut out, format!("token {:?} (row {bi}, table columns {c0}..{c1}) lies at x {}..{} but those columns span x {lo}..{hi}", cell.token, x, x + tok.len()));
+                                return out;
+                            }
+                        }
+                    }
+                }
+            }
+        }
+        if ragged {
+            return out; // unequal line widths are C05's subject; the per-row bar checks below assume a rectangular grid
+        }
         let mut last_band_of_token = 0usize;
         for (bi, ((s, e), row)) in bands.iter().zip(&rows_with_text).enumerate() {
             let bars: Vec<usize> = g[*s].iter().enumerate().filter(|(_, ch)| **ch == '│').map(|(x, _)| x).collect();
